@@ -356,7 +356,14 @@ impl Property for C13 {
             if k < 64 {
                 self.session_case(acc, i, (k / 8 + 1) as usize, (k % 8) as usize, None, cfg.seed);
             } else {
-                self.session_case(acc, i, 0, 0, Some((k - 64) as usize), cfg.seed);
+                // (two of the repetitions of the longest vector are replaced by really long lists: hundreds / thousands of
+                // commands in one batch, as many frames in one reply)
+                let n = match (k, i / 85) {
+                    (84, 1) => 1500,
+                    (84, 2) => 300,
+                    _ => (k - 64) as usize,
+                };
+                self.session_case(acc, i, 0, 0, Some(n), cfg.seed);
             }
             return;
         }
@@ -380,7 +387,7 @@ impl Property for C13 {
     fn meta(&self, _cfg: &Cfg, _acc: &Acc) -> Meta {
         Meta {
             level: "exploration",
-            rule: "(i) framing: raw lists of 1-50 commands with arguments needing quotes and, in one command of twelve, a 4-70 KB argument, built through new/command/add/extend (Extend from exact-size, filter / flat_map / from_fn, chained and empty iterators), one case in four after requests on another connection of the same thread failed half-way through their write, must render (blocking and async connection) to exactly command_list_ok_begin + the individually rendered lines in order + command_list_end, a list of one command to the bare line; lists of 2-3 MiB (thorough: up to 33 MiB) of command lines are still one begin...end block; Vec command lists of length 0-20: None when empty; an empty typed list issued after the connection has ended (clean close / read error) still yields an empty result and writes nothing; (ii) pairing, EXHAUSTIVE over tuple arities 1-8 x all 8 rotations of 8 distinguishable command types (update, addid, sticker get, count, listplaylistinfo, rescan, status, ping) and Vec lengths 0-20: executed through Client::command_list in sessions against the simulated server whose reply to each command carries a token derived from the command's own argument, with chopped replies, read caps, a concurrent caller and notifications; result i must carry token i (a misplaced frame of another type fails conversion), the request must have been written as one batch / bare line / nothing for the empty list; non-trivial = list with >=2 commands with pairwise distinct tokens; distinct by (shape, tokens)".into(),
+            rule: "(i) framing: raw lists of 1-50 commands with arguments needing quotes and, in one command of twelve, a 4-70 KB argument, built through new/command/add/extend (Extend from exact-size, filter / flat_map / from_fn, chained and empty iterators), one case in four after requests on another connection of the same thread failed half-way through their write, must render (blocking and async connection) to exactly command_list_ok_begin + the individually rendered lines in order + command_list_end, a list of one command to the bare line; lists of 2-3 MiB (thorough: up to 33 MiB) of command lines are still one begin...end block; Vec command lists of length 0-20: None when empty; an empty typed list issued after the connection has ended (clean close / read error) still yields an empty result and writes nothing; (ii) pairing, EXHAUSTIVE over tuple arities 1-8 x all 8 rotations of 8 distinguishable command types (update, addid, sticker get, count, listplaylistinfo, rescan, status, ping) and Vec lengths 0-20 (plus 300 and 1500): executed through Client::command_list in sessions against the simulated server whose reply to each command carries a token derived from the command's own argument, with chopped replies, read caps, a concurrent caller and notifications; result i must carry token i (a misplaced frame of another type fails conversion), the request must have been written as one batch / bare line / nothing for the empty list; non-trivial = list with >=2 commands with pairwise distinct tokens; distinct by (shape, tokens)".into(),
             nontrivial_set: "nontrivial",
             assumptions: vec!["simulated server (token replies) as in C01".into(), "the individual rendering of each command is C15's subject".into()],
             exhaustive: Some(true),
